@@ -12,6 +12,8 @@
 
   Timeouts: the timer task of `_start_timeout` is not modelled; a timeout is the explicit
   `_Flush` key in the queue (that is exactly what the timer feeds).
+  Not modelled: the Readline argument (`arg`), `is_repeat`, `save_before`, macro recording, the
+  vi cursor fix-up.
 -/
 import Ptk.Model.C04KB
 namespace Ptk.C04
